@@ -24,6 +24,15 @@ def _other(seed, n, p, like):
     return Z
 
 
+def _shifted(param):
+    """Another valid fixed parameter of the same form: the mean part moved by 1.5 (variances / covariances kept)."""
+    if isinstance(param, tuple):
+        return (_shifted(param[0]),) + tuple(param[1:])
+    if isinstance(param, np.ndarray):
+        return param + 1.5
+    return param + 1.5
+
+
 def _reconfigure(det, X, seed, wrap):
     """The object is first built with other structural hyper-parameters (smaller minimum lengths, other
     maximum lengths / growth factor), fitted and used on data of the same shape, and only then given
@@ -41,14 +50,32 @@ def _reconfigure(det, X, seed, wrap):
     if isinstance(target.get("growth_factor"), (float, np.floating)):
         first["growth_factor"] = float([1.2, 1.7, 2.0][int(rng.integers(3))])
     first = {k: v for k, v in first.items() if v != target[k]}
-    if not first:
+    # hyper-parameters of a plugged-in scorer (fixed cost parameter, a user cost's weight) that the caller sets
+    # through the nested interface after the detector was built and used with other values
+    nested_first, nested_real = {}, {}
+    for slot, v in target.items():
+        if not hasattr(v, "get_params"):
+            continue
+        vp = v.get_params(deep=False)
+        if vp.get("param") is not None:
+            nested_first[f"{slot}__param"] = _shifted(vp["param"])
+            nested_real[f"{slot}__param"] = vp["param"]
+        for hp in ("weight", "scale"):
+            if isinstance(vp.get(hp), (int, float, np.integer, np.floating)) and not isinstance(vp.get(hp), bool):
+                nested_first[f"{slot}__{hp}"] = float(vp[hp]) * 2.0 + 1.0
+                nested_real[f"{slot}__{hp}"] = vp[hp]
+    if not first and not nested_first:
         return None
     try:
         d0 = det.clone().set_params(**first)
+        if nested_first:
+            d0.set_params(**nested_first)
         other = wrap(_other(seed + 5, X.shape[0], X.shape[1], X))
         d0.fit(other)
         d0.predict(other)
         d0.set_params(**{k: target[k] for k in first})
+        if nested_real:
+            d0.set_params(**nested_real)
     except Exception:  # the detour itself is not what is judged
         return None
     return d0
@@ -61,7 +88,15 @@ def prepare(det, X, hist, seed, nmin, frame=None, wrap=None):
     their own container through `wrap`)."""
     n, p = X.shape
     if wrap is None:
-        wrap = (lambda a: pd.DataFrame(a)) if frame == "df" else (lambda a: a)
+        if frame == "df":
+            # a DataFrame whose index is, in 4 of 7 cases, not 0..n-1 (offset / stepped range, datetime, period, tied
+            # labels): positions, scores and thresholds are about integer positions, whatever the labels
+            from vf.spec import INDEX_KINDS, TIED_INDEX_KINDS, make_frame
+
+            ik = (["range0"] * 3 + INDEX_KINDS[1:] + TIED_INDEX_KINDS[:1])[seed % 8]
+            wrap = lambda a: make_frame(a, ik, dtype=str(np.asarray(a).dtype))  # noqa: E731
+        else:
+            wrap = lambda a: a  # noqa: E731
     if hist == "reconfigured":
         d0 = _reconfigure(det, X, seed, wrap)
         det = det if d0 is None else d0
